@@ -148,7 +148,7 @@ def run(chk):
     # ---------------------------------------------------------------- spheres
     xr, wr = np.polynomial.legendre.leggauss(80)
     for _ in range(nsh):
-        R = float(2.0 ** rng.integers(-2, 3)) * float(rng.integers(1, 8)) / 4
+        R = float(2.0 ** rng.integers(-3, 6)) * float(rng.integers(1, 8)) / 4          # 0.03 .. 56: any size
         c = gen.dy(rng.uniform(-4, 4, 3), 4)
         sh = S.Sphere(R, c)
         Q = qs_for(rng, 2 * R, [], nq)
